@@ -7,7 +7,7 @@ def build(flags, name):
     exe = os.path.join(vf.BUILD, "harness", name); os.makedirs(os.path.dirname(exe), exist_ok=True)
     rc, out = vf.sh(["g++", "-std=c++11", "-O1", "-w", "-pthread"] + flags + ["-I%s/include" % vf.REPO, "-I%s/include/nfl/prng" % vf.REPO,
                      os.path.join(vf.ROOT, "harness/h_prngconc.cpp"), os.path.join(vf.REPO, "lib/prng/fastrandombytes.cpp"),
-                     os.path.join(vf.REPO, "lib/prng/nfl_crypto_stream_salsa20_amd64_xmm6.s"), "-o", exe])
+                     os.path.join(vf.REPO, "lib/prng/nfl_crypto_stream_salsa20_amd64_xmm6.s"), "-Wl,--wrap=_ZN3nfl15fastrandombytesEPhy", "-lgmp", "-lmpfr", "-o", exe])
     return (exe if rc == 0 else None), out
 
 def run(ck):
@@ -58,9 +58,18 @@ def run(ck):
                 stress.append((T, R, o.strip()))
                 if r != 0 or "unidentified=0 reused=0 gaps=0 seedings=1" not in o:
                     fails.append(("free-running stress", "stress %d %d" % (T, R), o.strip() + e[-200:], "unidentified=0 reused=0 gaps=0 seedings=1"))
+        # one Gaussian sampler object shared by the threads: every call's output must be the decode of the keystreams that call itself obtained
+        for T, R in ((2, 20), (4, 15), (8, 8)) + (() if q else ((16, 20),)):
+            r, o, e = vf.run_io([sx], "gshare %d %d\n" % (T, R), timeout=600)
+            stress.append((T, R, o.strip()))
+            if r != 0 or "unidentified=0 reused=0 gaps=0 outputs_not_from_own_keystream=0 seedings=1" not in o:
+                fails.append(("shared Gaussian sampler", "gshare %d %d" % (T, R), o.strip() + e[-200:], "unidentified=0 reused=0 gaps=0 outputs_not_from_own_keystream=0 seedings=1"))
     if not q:
         tx, out = build(["-fsanitize=thread", "-g"], "h_prngconc_tsan")
         if tx:
+            for T, R in ((4, 5),):
+                r, o, e = vf.run_io([tx], "gshare %d %d\n" % (T, R), timeout=600)
+                if r != 0 or "WARNING: ThreadSanitizer" in e: fails.append(("ThreadSanitizer (shared Gaussian sampler)", "gshare %d %d" % (T, R), e[-600:], "no data race report"))
             for T, R in ((2, 50), (8, 50), (16, 30)):
                 r, o, e = vf.run_io([tx], "stress %d %d\n" % (T, R), timeout=600)
                 stress.append((T, R, "tsan:" + o.strip()))
